@@ -83,7 +83,7 @@ PROPS = {
     "C09": dict(
         lean=["Upf.Props.C09"],
         level="proof",
-        claim="BESS part proved for all rates / burst configurations / rule sets: closed gate drops; open gate with GBR <= MBR < 2^40 is metered with "
+        claim="Along every history in the envelope of the BESS agent model, the two entries bess.addQER builds for each stored QER lie in the lookup table its level selects, under the QER's key (stored_qer_is_programmed, from the image invariant of C03). BESS part proved for all rates / burst configurations / rule sets: closed gate drops; open gate with GBR <= MBR < 2^40 is metered with "
               "peak = MBR x 125 and committed = max(GBR x 125, 1) whatever the other direction left behind; both zero unmetered; burst = exactly "
               "floor(rate x duration / 8) and >= the configured minimum; a QER labelled session-wide by a marking call is referenced by every PDR, at most "
               "one per call. T1: calcBurstSizeFromRate as regenerated from utils.go is proved equal to the model's calcBurst on every pair of 64-bit inputs (burst_is_the_code). "
